@@ -122,10 +122,20 @@ PROPS["C20"] = dict(
     technique="TLA+ relational trace validation (TraceRel.tla) of grouped real-code executions; RoundOnce bracket theorems model-checked (MC_Round); TLAPS kernel lemma",
 )
 
+def attr_c03(ev, names):
+    if fam(ev, "g"):
+        return ev.get("gk") == "traps" and any_in(names, {"trap-error", "nil-same", "error-iff", "delivered", "no-trap-no-error", "panic"})
+    if fam(ev, "mh"):
+        return ev.get("mode") == "ed"
+    if fam(ev, "a"):
+        return "err" in names
+    return False
+
+
 PROPS["C03"] = dict(
-    mc=[],
-    drivers=[("traps", "TraceRel")],
-    attr=attr_group("traps", "errdec"),
+    mc=[("MC_ErrDec", None)],
+    drivers=[("traps", "TraceRel"), "errdec"],
+    attr=attr_c03,
     rule="each case is executed under the empty trap set and under 32 (thorough: sampled cases under all 4095) trap sets; "
          "TraceRel.tla checks the trap relation between the recorded outcomes; ErrDecimal edges/histories validated against ErrDec.tla",
 )
@@ -135,10 +145,20 @@ PROPS["C05"] = dict(
     attr=attr_group("alias"),
     rule="each case is executed once per aliasing pattern with real pointer identity; all recorded outcomes must be identical",
 )
+def attr_c06(ev, names):
+    if fam(ev, "sh"):
+        return True
+    if fam(ev, "g"):
+        return ev.get("gk") == "pre" or (ev.get("gk") in ("alias", "traps") and "frame" in names)
+    if fam(ev, "a"):
+        return any_in(names, {"frame", "ctxframe"})
+    return fam(ev, "mh")
+
+
 PROPS["C06"] = dict(
-    mc=[],
-    drivers=[("pre", "TraceRel")],
-    attr=attr_group("pre"),
+    mc=[("MC_ErrDec", None)],
+    drivers=[("pre", "TraceRel"), "specials", "machine"],
+    attr=attr_c06,
     rule="each case is executed into 7 destination pre-states; all recorded outcomes must be identical; operands unchanged",
 )
 
@@ -204,5 +224,5 @@ PROPS["C16"] = dict(
                "the property's wording), the VerifRepr hook. Bounded exploration.",
 )
 
-HOOK_COMMITS = ["9935482"]
+HOOK_COMMITS = ["9935482", "75960a2"]
 NOT_YET = {}
